@@ -71,6 +71,7 @@ pub struct Gen<'a> {
     counters: Vec<u64>,
     next_cmd: u64,
     next_supply: u64,
+    next_send: u64,
     pub targets: usize,
 }
 
@@ -78,7 +79,7 @@ pub const CAPS: [usize; 7] = [2, 3, 5, 8, 16, 64, 4096];
 
 impl<'a> Gen<'a> {
     pub fn new(rng: &'a mut Rng) -> Self {
-        Gen { rng, counters: vec![0; 64], next_cmd: 1, next_supply: 1, targets: 3 }
+        Gen { rng, counters: vec![0; 64], next_cmd: 1, next_supply: 1, next_send: 0, targets: 3 }
     }
 
     /// Unique value: `source << 32 | counter` (source 1.. = remotes, 40.. = handler on behalf of remote).
@@ -109,7 +110,7 @@ impl<'a> Gen<'a> {
             cap_in,
             pace,
             lane_in_buf: *rng.pick(&[32usize, 64, 256, 4096]),
-            lane_out_buf: *rng.pick(&[32usize, 64, 256, 4096]),
+            lane_out_buf: *rng.pick(&[8usize, 16, 32, 64, 256, 4096]),
             jitter_per_mille: *rng.pick(&[0u64, 0, 100, 300, 600]),
             agent_jitter_per_mille: *rng.pick(&[0u64, 0, 200, 500]),
             keys: rng.range(2, 5) as i32,
@@ -230,7 +231,13 @@ impl<'a> Gen<'a> {
                 Focus::Commands => {
                     let target = self.rng.below(self.targets.max(1) as u64) as u32;
                     let mode = *self.rng.pick(&[0u32, 0, 1, 2, 2]);
-                    Act::Send { target, v: self.val(source), mode }
+                    // unique values whose printed length keeps changing (1, 2, 3 ... digits): frames of
+                    // different sizes end up pending together for one target
+                    self.next_send += *self.rng.pick(&[1u64, 1, 1, 2, 7, 85, 900, 9_000]);
+                    if self.rng.chance(1, 12) && self.next_send < 1_000_000_000_000_000 {
+                        self.next_send = self.next_send * 10 + 1;
+                    }
+                    Act::Send { target, v: self.next_send, mode }
                 }
                 Focus::Persist => match self.rng.below(8) {
                     0 | 1 => {
@@ -387,6 +394,16 @@ impl<'a> Gen<'a> {
                         Pace { chunk: *self.rng.pick(&[1usize, 2, 5, 64, 4096]), yields: *self.rng.pick(&[0u32, 1, 5, 30]) },
                     )),
                 }
+            } else if matches!(focus, Focus::Persist | Focus::Sync | Focus::Value) && hit(60) {
+                // back-to-back changes of one value lane followed by a sync of the same remote: with a
+                // small lane output buffer the lane answers the sync while a change is still unpublished
+                let (lane, _) = self.value_lane();
+                let src = r + 1;
+                let a = self.val(src);
+                let b = self.val(src);
+                steps.push(Step::Command(r, lane.to_string(), a.to_string()));
+                steps.push(Step::Command(r, lane.to_string(), b.to_string()));
+                steps.push(Step::Sync(r, lane.to_string()));
             } else if hit(w_fault) {
                 if self.rng.bool() {
                     steps.push(Step::DropReader(r));
